@@ -27,6 +27,7 @@ type GenerateSettings struct {
 	typeLengthers     map[string]string
 	customRecordTypes map[string]struct{}
 	enumSizes         map[string]uint8
+	minWireSizes      map[string]int
 
 	ImportGenerationMode
 	imported          []File
@@ -403,6 +404,7 @@ func (f File) Generate(inputWriter io.Writer, settings GenerateSettings) error {
 	settings.typeUnmarshallers = f.typeUnmarshallers(settings)
 	settings.typeLengthers = f.typeLengthers()
 	settings.customRecordTypes = f.customRecordTypes()
+	settings.minWireSizes = f.minWireSizes(settings)
 	settings.enumSizes = make(map[string]uint8, len(f.Enums))
 	for _, en := range f.Enums {
 		settings.enumSizes[en.Name] = fixedSizeTypes[en.SimpleType]
@@ -629,10 +631,22 @@ func writeLengthCheck(w io.Writer, ln string, depth int, args ...string) {
 	writeLineWithTabs(w, "}", depth, args...)
 }
 
+// writeCountCheck rejects an element count that the rest of the buffer cannot hold, given that
+// every element takes at least minSize bytes (after skipping skip bytes).
+func writeCountCheck(w io.Writer, count string, skip, minSize, depth int) {
+	writeLineWithTabs(w, "if uint64(len(buf[at:])) < "+strconv.Itoa(skip)+"+uint64("+count+")*"+strconv.Itoa(minSize)+" {", depth)
+	writeLineWithTabs(w, "\treturn io.ErrUnexpectedEOF", depth)
+	writeLineWithTabs(w, "}", depth)
+}
+
 func writeFieldReadByter(name string, typ FieldType, w *iohelp.ErrorWriter, settings GenerateSettings, depth int, safe bool) {
 	if typ.Array != nil {
 		if safe {
 			writeLengthCheck(w, "4", depth)
+			// do not size an allocation from a count the remaining bytes cannot possibly hold
+			if min := typ.Array.minWireSize(settings); min > 0 {
+				writeCountCheck(w, "iohelp.ReadUint32Bytes(buf[at:])", 4, min, depth)
+			}
 		}
 
 		writeLineWithTabs(w, "%ASGN = make([]%TYPE, iohelp.ReadUint32Bytes(buf[at:]))", depth, name, typ.Array.goString(settings))
@@ -659,6 +673,12 @@ func writeFieldReadByter(name string, typ FieldType, w *iohelp.ErrorWriter, sett
 		}
 		writeLineWithTabs(w, lnName+" := iohelp.ReadUint32Bytes(buf[at:])", depth)
 		writeLineWithTabs(w, "at += 4", depth)
+		if safe {
+			keyAndValue := FieldType{Simple: typ.Map.Key}.minWireSize(settings) + typ.Map.Value.minWireSize(settings)
+			if keyAndValue > 0 {
+				writeCountCheck(w, lnName, 0, keyAndValue, depth)
+			}
+		}
 		writeLineWithTabs(w, "%ASGN = make(%TYPE,"+lnName+")", depth, name, typ.Map.goString(settings))
 		writeLineWithTabs(w, "for i := uint32(0); i < "+lnName+"; i++ {", depth, name)
 		var ln string
